@@ -448,11 +448,26 @@ def field_span(msg, field):
     return d.offset, d.offset + d.size
 
 
-def do_assign(msg, case: Case, in_force: bool, res: RunResult, who: str, accessor=None):
+def do_assign(msg, case: Case, in_force: bool, res: RunResult, who: str, accessor=None, prime=False):
     """perform one table case on msg and judge it"""
     C = classes()
-    before = bytes(msg)
     value = materialise(case.value)
+    if prime and in_force and case.op in ("set", "slice") and case.field in ARRAYS and isinstance(value, list):
+        # the very same list object was assigned (with the field's current, valid content) just before, and was
+        # then changed in place into the value of this case
+        try:
+            cur = getattr(msg, case.field)
+            obj = list(cur[:]) if case.op == "set" else list(cur[case.key])
+            if case.op == "set":
+                setattr(msg, case.field, obj)
+            else:
+                (accessor if accessor is not None else getattr(msg, case.field))[case.key] = obj
+            obj[:] = value
+            value = obj
+            res.probes["same_object_reassigned"] += 1
+        except Exception:
+            value = materialise(case.value)
+    before = bytes(msg)
     other = None
     if case.op == "from":
         other = C[case.value[0]]()
@@ -616,7 +631,7 @@ class ValidationRun:
                     setattr(self, "_abort_" + who, True)
                     return
                 self.t(f"{who} depth={real_depth}: {case.label}")
-                do_assign(msg, case, in_force, res, who)
+                do_assign(msg, case, in_force, res, who, prime=self.ch.flag("as.prime", 1, 4))
             elif op[0] == "grab":
                 # keep an array accessor obtained now (possibly inside a block) for later use
                 acc = getattr(self, "_acc_" + who, None)
@@ -727,7 +742,7 @@ class ValidationRun:
                 fill(msg, f["case"])
                 case = table()[f["case"]]
                 self.t(f"single assignment: {case.label}")
-                do_assign(msg, case, True, res, "main")
+                do_assign(msg, case, True, res, "main", prime=bool(f.get("prime")))
                 res.enumerated.setdefault("table_cases", set()).add(f["case"])
             else:
                 ntasks = 1 + ch.pick("cfg.ntasks", 3)
@@ -798,4 +813,9 @@ def run(choices, forced=None) -> RunResult:
 def det_cases(tier):
     n = len(table())
     idx = range(n) if tier == "thorough" else range(0, n, 3)
-    return [dict(case=i) for i in idx]
+    out = [dict(case=i) for i in idx]
+    # the array cases once more with the same list object assigned twice (changed in place in between)
+    tbl = table()
+    primed = [i for i in range(n) if tbl[i].op in ("set", "slice") and tbl[i].field in ARRAYS and isinstance(tbl[i].value, list)]
+    out += [dict(case=i, prime=True) for i in (primed if tier == "thorough" else primed[::3])]
+    return out
